@@ -110,7 +110,7 @@ def zygote_init():
 def plan(prop, tier, seed):
     _load_bases()
     specs = []
-    n, cases = (24, 500) if tier == "quick" else (160, 1500)
+    n, cases = (24, 500) if tier == "quick" else (128, 1500)
     for i in range(n):
         specs.append({"kind": "random", "seed": run_seed(seed, prop, tier, i), "cases": cases, "want_sample": i < 2})
     # enumerated truncations: (base, from, to, step) segments packed into worlds
